@@ -1203,3 +1203,79 @@ def merge_nested_withs(fn) -> int:
                 count += 1
                 changed = True
     return count
+
+
+def conditional_iter_loops(fn) -> int:
+    """`for t in (A if c else ()): B`  ->  `if c: for t in A: B`   (an empty literal as the other arm; no else clause on the loop)"""
+    count = 0
+
+    def empty(e):
+        return (isinstance(e, (ast.Tuple, ast.List, ast.Set)) and not e.elts) or (isinstance(e, ast.Dict) and not e.keys) or (isinstance(e, ast.Constant) and e.value in ("", b""))
+
+    for body in _stmt_blocks(fn):
+        for i, s in enumerate(body):
+            if isinstance(s, ast.For) and not s.orelse and isinstance(s.iter, ast.IfExp):
+                ie = s.iter
+                if empty(ie.orelse) and not empty(ie.body):
+                    test, it = ie.test, ie.body
+                elif empty(ie.body) and not empty(ie.orelse):
+                    test, it = ast.UnaryOp(op=ast.Not(), operand=ie.test), ie.orelse
+                else:
+                    continue
+                s.iter = it
+                new = ast.If(test=test, body=[s], orelse=[])
+                ast.copy_location(new, s)
+                ast.fix_missing_locations(new)
+                body[i] = new
+                count += 1
+    return count
+
+
+def index_while_to_for(fn) -> int:
+    """`i = K` ; `while i < len(S): t = S[i]; i += 1; B`  ->  `for t in S[K:]: B`   (i used for nothing else; S not rebound in B; also with
+    the increment as the last statement of a body without `continue`)"""
+    count = 0
+    for body in _stmt_blocks(fn):
+        j = 0
+        while j + 1 < len(body):
+            a, w = body[j], body[j + 1]
+            j += 1
+            if not (isinstance(a, ast.Assign) and len(a.targets) == 1 and isinstance(a.targets[0], ast.Name) and isinstance(a.value, ast.Constant) and type(a.value.value) is int and a.value.value >= 0):
+                continue
+            i = a.targets[0].id
+            if not (isinstance(w, ast.While) and not w.orelse and isinstance(w.test, ast.Compare) and len(w.test.ops) == 1 and isinstance(w.test.ops[0], ast.Lt)
+                    and isinstance(w.test.left, ast.Name) and w.test.left.id == i and isinstance(w.test.comparators[0], ast.Call)
+                    and isinstance(w.test.comparators[0].func, ast.Name) and w.test.comparators[0].func.id == "len" and len(w.test.comparators[0].args) == 1
+                    and isinstance(w.test.comparators[0].args[0], ast.Name)):
+                continue
+            S = w.test.comparators[0].args[0].id
+            wb = w.body
+            if len(wb) < 2:
+                continue
+            first = wb[0]
+            if not (isinstance(first, ast.Assign) and len(first.targets) == 1 and isinstance(first.targets[0], ast.Name) and isinstance(first.value, ast.Subscript)
+                    and isinstance(first.value.value, ast.Name) and first.value.value.id == S and isinstance(first.value.slice, ast.Name) and first.value.slice.id == i):
+                continue
+            t = first.targets[0].id
+
+            def is_inc(s_):
+                return isinstance(s_, ast.AugAssign) and isinstance(s_.target, ast.Name) and s_.target.id == i and isinstance(s_.op, ast.Add) and isinstance(s_.value, ast.Constant) and s_.value.value == 1
+
+            if is_inc(wb[1]):
+                rest = wb[2:]
+            elif is_inc(wb[-1]) and not any(isinstance(x, ast.Continue) for s_ in wb for x in ast.walk(s_)):
+                rest = wb[1:-1]
+            else:
+                continue
+            uses_i = [n for s_ in rest for n in ast.walk(s_) if isinstance(n, ast.Name) and n.id == i]
+            after = [n for s_ in body[j + 1:] for n in ast.walk(s_) if isinstance(n, ast.Name) and n.id == i and isinstance(n.ctx, ast.Load)]
+            rebinds = [n for s_ in rest for n in ast.walk(s_) if isinstance(n, ast.Name) and n.id == S and isinstance(n.ctx, ast.Store)]
+            if uses_i or after or rebinds or not rest:
+                continue
+            it = ast.Subscript(value=ast.Name(id=S, ctx=ast.Load()), slice=ast.Slice(lower=ast.Constant(value=a.value.value), upper=None, step=None), ctx=ast.Load()) if a.value.value else ast.Name(id=S, ctx=ast.Load())
+            loop = ast.For(target=ast.Name(id=t, ctx=ast.Store()), iter=it, body=rest, orelse=[], type_comment=None)
+            ast.copy_location(loop, w)
+            ast.fix_missing_locations(loop)
+            body[j - 1:j + 1] = [loop]
+            count += 1
+    return count
